@@ -240,6 +240,9 @@ var modelTargets = map[string]string{
 	"ModelIterValid":          "(*github.com/dgraph-io/badger/v4.Iterator).Valid",
 	"ModelIterValidForPrefix": "(*github.com/dgraph-io/badger/v4.Iterator).ValidForPrefix",
 	"ModelIterItem":           "(*github.com/dgraph-io/badger/v4.Iterator).Item",
+	"ModelAESNewCipher":       "crypto/aes.NewCipher",
+	"ModelNewGCM":             "crypto/cipher.NewGCM",
+	"ModelReadFull":           "io.ReadFull",
 	"ModelOsCreate":           "os.Create",
 	"ModelFileClose":          "(*os.File).Close",
 }
